@@ -177,6 +177,8 @@ class Run:
         self.faults_fired = {}
         self.fired_excs = []
         self.max_events = MAX_EVENTS
+        self.side = {}  # id(obj) -> [obj, label, flags]  (for objects that cannot carry attributes)
+        self.inv_during_ctor = []
         self.txs = []
         self.injected = []
         self.suspensions = 0
@@ -204,6 +206,36 @@ class Run:
         if a is None or a.run is not self:
             raise HarnessError("hand-over outside an actor of this run")
         return a
+
+    # -- objects ------------------------------------------------------------------------------
+    def register(self, obj, label, flags):
+        fl = dict(flags or {})
+        try:
+            object.__setattr__(obj, "_flags", fl)
+            object.__setattr__(obj, "_label", label)
+        except (AttributeError, TypeError):
+            pass
+        self.side[id(obj)] = [obj, label, fl]
+        self.world.objects[label] = obj
+        self.idmap[id(obj)] = label
+
+    def label_of(self, obj):
+        e = self.side.get(id(obj))
+        if e is not None and e[0] is obj:
+            return e[1]
+        try:
+            return obj.__dict__.get("_label")
+        except AttributeError:
+            return None
+
+    def flags_of(self, obj):
+        e = self.side.get(id(obj))
+        if e is not None and e[0] is obj:
+            return e[2]
+        try:
+            return obj.__dict__.get("_flags")
+        except AttributeError:
+            return None
 
     # -- log ----------------------------------------------------------------------------------
     def ev(self, kind, sid, xid, detail):
@@ -273,7 +305,12 @@ class Run:
         cfg = tx.td.get("sites", {}).get(sid) or {}
         olabel = None
         if obj is not None:
-            olabel = getattr(obj, "_label", None) or "<unbuilt>"
+            olabel = self.label_of(obj) or "<unbuilt>"
+            if kind == "inv":
+                for fr in a.stack:
+                    if fr[0] == "ctor" and fr[2] == olabel:
+                        self.inv_during_ctor.append((tx.xid, sid, olabel))
+                        break
         self.ev(kind, sid, tx.xid, olabel if olabel is not None else k)
         if len(a.stack) >= MAX_DEPTH:
             self.aborted = "depth"
@@ -288,7 +325,7 @@ class Run:
 
     def _truth(self, kind, sid, cfg, obj):
         if kind == "inv":
-            fl = getattr(obj, "_flags", None)
+            fl = self.flags_of(obj)
             if fl is None:
                 return True
             return bool(fl.get(sid, True))
@@ -389,17 +426,10 @@ class Run:
             raise HarnessError("body entered outside a call")
         tx = a.tstack[-1]
         cfg = tx.td.get("body") or {}
-        if is_ctor and obj is not None and getattr(obj, "_label", None) is None:
+        if is_ctor and obj is not None and self.label_of(obj) is None:
             # the outermost generated constructor body registers the object
-            label = tx.td.get("obj")
-            try:
-                object.__setattr__(obj, "_flags", dict(tx.td.get("flags") or {}))
-                object.__setattr__(obj, "_label", label)
-            except AttributeError:
-                pass
-            self.world.objects[label] = obj
-            self.idmap[id(obj)] = label
-        olabel = getattr(obj, "_label", None) if obj is not None else None
+            self.register(obj, tx.td.get("obj"), tx.td.get("flags"))
+        olabel = self.label_of(obj) if obj is not None else None
         key = (tx.xid, "body")
         occ = tx.top.occ
         k = occ.get(key, 0)
@@ -418,7 +448,7 @@ class Run:
     def _body_exit(self, tx, cfg, obj):
         m = cfg.get("mutates")
         if m and obj is not None:
-            fl = getattr(obj, "_flags", None)
+            fl = self.flags_of(obj)
             if fl is not None:
                 fl.update(m)
         self.ev("body_exit", None, tx.xid, None)
